@@ -195,6 +195,14 @@ def st_case(draw):
     curve = make_well_formed(curve, draw(st.sampled_from([0.0, 1.0, 1.0])) * draw(st.floats(0.0, 0.03)))
     step, opt = draw(st.sampled_from(COMBOS + EXTRA_WEIGHT))
     variant = draw(st.integers(0, NVARIANTS[step] - 1))
+    if step == SMOOTH and draw(st.sampled_from([False, True, False])):
+        # a short hold at the turning point during which the tip rings, damped: a height that is non-monotonic by
+        # 1e-9 .. 1e-4 of the travel (far above the resolution of a double, so strict monotonicity is attainable:
+        # the amplitude at the end of the hold is >= 5e-11 of the travel)
+        m = draw(st.integers(5, max(5, min(200, int(curve["n_ret"]) // 2))))
+        curve["ring"] = {"n": m, "amp": 10.0 ** draw(st.floats(-9.0, -4.0)), "period": draw(st.floats(8.0, 80.0)),
+                         "tau": m / draw(st.floats(0.3, 3.0))}
+        curve["quant"] = 0.0
     if step == SMOOTH and curve["lag"]:
         # a lagged flag leaves V-shaped (not monotonic) heights in the retract segment: the
         # well-formed pipeline repairs the flag first (steps_optional of smooth_height)
@@ -457,7 +465,7 @@ def check_case(case, ctx):
         ctx.extra["max_equal_height_runs_generated"] = max(ctx.extra.get("max_equal_height_runs_generated", 0),
                                                            facts["runs"])
         classes += [case["curve"]["model"], "noisy" if case["curve"]["noise"] else "noise_free"]
-        for key in ("tilt", "drift", "lag", "quant", "with_tip", "hnoise", "time_mode"):
+        for key in ("tilt", "drift", "lag", "quant", "with_tip", "hnoise", "time_mode", "ring"):
             if case["curve"].get(key):
                 classes.append(key)
 
